@@ -15,17 +15,19 @@ spec/P2P.tla   one peer session of client/network: the wire grammar of every com
   2b. "repeat until banned": every class the node answers with misbehaviour points is sent again and again until the
      score rule of the model (BanScore) predicts the ban, and once more; all locks probed after every message
   3. every violation is re-run alone in a fresh process before it is reported; the replay file holds the bytes
-  4. the library entry points named by the property, with the same perturbation classes and seeded mutations
+  4. the library entry points named by the property, with the same perturbation classes and seeded mutations, and
+     script verification with an enumeration of witness shapes at the structural boundaries (harness/cmd/p2p/shapes.go)
   5. self-tests of the observer (injected leaked lock / panic event / stuck handler must be seen) and of the
      comparator (a corrupted prediction must be flagged)
 """
 import json, os, re, collections, random
 from vf import Infra
 
-DEFECTS = ["VersionAgentLen", "CmpctSameSid", "CmpctPrefilledIdx", "InvCountWrap", "BlockTxCount", "CmpctTxSize", "GetBlockTxnIdx",
+DEFECTS = ["VersionAgentLen", "CmpctSameSid", "BlkTxnNoColLock", "CmpctPrefilledIdx", "InvCountWrap", "BlockTxCount", "CmpctTxSize", "GetBlockTxnIdx",
            "BlockTxnMissing", "EncFlagNoKey", "TeardownLockOrder"]
+IDLE = dict(MAXPRE=1, MAXPOST=5, CMDS='"version","headers","idle","blocktxn","blocktxn2","block","cmpctblock"', KINDS='"valid"')
 ORPH = dict(MAXPRE=1, MAXPOST=4, CMDS='"version","txo1","txo2","cmpctblock4","sendcmpct"', KINDS='"valid"')
-INIT = {"alive": True, "ver": False, "cmpct": 0, "auth": "no", "addrd": False, "ahr": False, "bip": False,
+INIT = {"alive": True, "ver": False, "cmpct": 0, "auth": "no", "addrd": False, "ahr": False, "bip": False, "gd": False,
         "h1": "no", "h2": False, "mp": False, "o1": False, "o2": False}
 
 
@@ -47,7 +49,7 @@ def project(st):
         return None
     return {"alive": st["alive"], "ver": st["ver"], "cmpct": st["cmpct"],
             "auth": "ok" if st["authd"] else ("got" if st["auth"] else "no"),
-            "addrd": st["addrd"], "ahr": st["ahr"], "bip": st["bip"], "h1": st["h1"], "h2": st["h2"], "mp": st["mp"],
+            "addrd": st["addrd"], "ahr": st["ahr"], "bip": st["bip"], "gd": st.get("gd", False), "h1": st["h1"], "h2": st["h2"], "mp": st["mp"],
             "o1": st.get("o1", False), "o2": st.get("o2", False)}
 
 
@@ -222,6 +224,15 @@ def sessions_of(lines, start_id):
     return out
 
 
+def tick_variants(d):
+    """OneConnection.Tick runs on the wall clock: when all headers are in and B1 is announced but not in progress it may
+    have asked for the block (plain getdata) at any moment"""
+    out = [d]
+    if d["ver"] and d["ahr"] and d["h1"] == "b2g" and not d["bip"] and not d["gd"]:
+        out.append(dict(d, gd=True))
+    return out
+
+
 def compare(sess, r):
     """-> None (agrees / not comparable) or a description of the disagreement between model and node"""
     steps = r.get("steps") or []
@@ -229,7 +240,7 @@ def compare(sess, r):
     if r.get("viol") or r.get("notrun") or len(steps) != n or steps[-1].get("out") == "skipped":
         return None
     pre = project(steps[n - 2].get("st")) if n > 1 else dict(INIT)
-    if pre is None or pre != sess["pre"]:
+    if pre is None or pre not in tick_variants(sess["pre"]):
         return "diverged"
     if not sess["det"]:
         return None
@@ -239,7 +250,7 @@ def compare(sess, r):
     if steps[-1].get("obs"):          # Run() left without its teardown: for the model that is "disconnected"
         st["alive"] = False
     got = (norm(steps[-1]["out"]), frozen(st))
-    if got in sess["preds"]:
+    if got in sess["preds"] or any(got == (o, frozen(v)) for o, fs in sess["preds"] for v in tick_variants(dict(fs))):
         return None
     return "model predicts %s, node shows %s" % (sorted(sess["preds"])[:2], got)
 
@@ -259,8 +270,9 @@ def run(ctx):
     states += r.distinct
     transitions += r.generated
     refuted = []
-    for d in (DEFECTS[:3] if quick else DEFECTS):
-        dd = dict(ORPH, DEFECTS='"%s"' % d) if d == "CmpctSameSid" else dict(DEFECTS='"%s"' % d)   # (that one needs three messages)
+    for d in (DEFECTS[:4] if quick else DEFECTS):
+        # (these two need more messages than the bound of the wide run: their own deep, narrow alphabets)
+        dd = dict(ORPH, DEFECTS='"%s"' % d) if d == "CmpctSameSid" else dict(IDLE, DEFECTS='"%s"' % d) if d == "BlkTxnNoColLock" else dict(DEFECTS='"%s"' % d)
         mc(ctx, dd, d, expect="LockOrder" if d == "TeardownLockOrder" else "HandlerReturnsClean")
         refuted.append(d)
     ctx.cov["refuted_variants"] = refuted
@@ -281,6 +293,8 @@ def run(ctx):
         raise Infra("grammars differ for %s: spec %s harness %s" % (bad[:3], spec_gram.get(bad[0]), h_gram.get(bad[0])))
     _, blines = export(ctx, "P2P_genban", dict(MAXPRE=11, MAXPOST=3, CMDS='"ping","version","getaddr","blocktxn"', KINDS='"valid"'), "ban")
     _, olines = export(ctx, "P2P_genorph", ORPH, "orphans")
+    _, ilines = export(ctx, "P2P_gen", IDLE, "idle")      # the node's own tick: blocks requested with a plain getdata
+    olines += ilines
     sessions = sessions_of(lines, 1)
     sessions += sessions_of(blines, len(sessions) + 1)
     have = set(tuple(ckey(m) for m in s["msgs"]) for s in sessions)
